@@ -439,6 +439,15 @@ bool TMCG_OpenPGP_Signature::CheckIntegrity
 	 const tmcg_openpgp_octets_t &hash,
 	 const int verbose) const
 {
+	if (hash.size() < 2)
+	{
+		if (verbose)
+		{
+			std::cerr << "ERROR: verification of signature " <<
+				"failed (no hash value)" << std::endl;
+		}
+		return false;
+	}
 	if ((left.size() == 2) &&
 		((left[0] != hash[0]) || (left[1] != hash[1])))
 	{
